@@ -194,7 +194,13 @@ func membersTrial(out *childOut, r *Rng, t int, thorough bool, script string) {
 			if compacted && sig == "C20/member-missing" {
 				sig = "C20/member-missing-after-compaction"
 			}
-			out.Violate("C20", sig, fmt.Sprintf("12 s after %s member %d lists [%s]; the acknowledged membership is [%s]", after, lastNode, bookText(last, names), bookText(exp, names)))
+			var st []string
+			for _, n := range c.live() {
+				s := n.g.VerifStatus()
+				li, _ := n.w.LastIndex()
+				st = append(st, fmt.Sprintf("node %d: term %d lead %d commit %d applied %d last %d", n.id, s.Term, s.Lead, s.Commit, s.Applied, li))
+			}
+			out.Violate("C20", sig, fmt.Sprintf("12 s after %s member %d lists [%s]; the acknowledged membership is [%s] (raft: %s)", after, lastNode, bookText(last, names), bookText(exp, names), strings.Join(st, "; ")))
 		}
 	}
 
@@ -270,11 +276,11 @@ func membersTrial(out *childOut, r *Rng, t int, thorough bool, script string) {
 		expected[id] = mi.addr
 	}
 
-	restartNode := func(id uint64) {
+	downNode := func(id uint64) bool {
 		old := c.node(id)
 		mi := info[id]
 		if old == nil || mi == nil {
-			return
+			return false
 		}
 		old.ctl.kill()
 		old.stopIncarnation()
@@ -282,6 +288,10 @@ func membersTrial(out *childOut, r *Rng, t int, thorough bool, script string) {
 			old.lis.Close()
 		}
 		time.Sleep(20 * time.Millisecond)
+		return true
+	}
+	upNode := func(id uint64) {
+		mi := info[id]
 		var peers []uint64
 		if mi.bootstrap {
 			peers = []uint64{id}
@@ -303,11 +313,7 @@ func membersTrial(out *childOut, r *Rng, t int, thorough bool, script string) {
 			fi, _ := n.w.FirstIndex()
 			li, _ := n.w.LastIndex()
 			sn, _ := n.w.Snapshot()
-			es, eerr := n.w.Entries(fi, li+1, 1<<30)
-			out.Local("debug restart %d: hs=%+v first=%d last=%d snap@%d conf=%v entries=%d err=%v status=%+v book=%v", id, hs, fi, li, sn.Metadata.Index, sn.Metadata.ConfState.Nodes, len(es), eerr, n.g.VerifStatus().HardState, n.conn.Nodes())
-			for _, e := range es {
-				out.Local("   entry %d term %d type %v len %d", e.Index, e.Term, e.Type, len(e.Data))
-			}
+			out.Local("debug restart %d: hs=%+v first=%d last=%d snap@%d conf=%v status=%+v book=%v", id, hs, fi, li, sn.Metadata.Index, sn.Metadata.ConfState.Nodes, n.g.VerifStatus().HardState, n.conn.Nodes())
 		}
 		out.Op("restart %d", id)
 		out.Res("ok")
@@ -322,7 +328,29 @@ func membersTrial(out *childOut, r *Rng, t int, thorough bool, script string) {
 			out.Local("re-join of %d after restart: %v", id, err)
 		}
 	}
-
+	restartNode := func(id uint64) {
+		if downNode(id) {
+			upNode(id)
+		}
+	}
+	compactOn := func(n *rsNode) bool {
+		done := make(chan error, 1)
+		go func() { done <- n.g.VerifSnapshotNow() }()
+		select {
+		case err := <-done:
+			if err == nil {
+				out.Op("compact %d", n.id)
+				out.Res("ok")
+				compacted = true
+				return true
+			}
+			out.Local("compaction on %d failed: %v", n.id, err)
+			out.Count("compaction-failed")
+		case <-time.After(2 * time.Second):
+			out.Local("compaction on %d did not finish", n.id)
+		}
+		return false
+	}
 	steps := 6 + r.Intn(8)
 	if thorough {
 		steps += r.Intn(10)
@@ -354,6 +382,8 @@ func membersTrial(out *childOut, r *Rng, t int, thorough bool, script string) {
 				}
 			case k < 40 && len(members) > 2:
 				action = "remove"
+			case k < 50 && len(members) > 1:
+				action = "lag"
 			case k < 60:
 				action = "propose"
 			case k < 75:
@@ -453,21 +483,65 @@ func membersTrial(out *childOut, r *Rng, t int, thorough bool, script string) {
 				cancel()
 				time.Sleep(30 * time.Millisecond)
 			}
-			done := make(chan error, 1)
-			go func() { done <- n.g.VerifSnapshotNow() }()
-			select {
-			case err := <-done:
-				if err == nil {
-					out.Op("compact %d", n.id)
-					out.Res("ok")
-					compacted = true
-				} else {
-					out.Local("compaction on %d failed: %v", n.id, err)
-					out.Count("compaction-failed")
-				}
-			case <-time.After(2 * time.Second):
-				out.Local("compaction on %d did not finish", n.id)
+			compactOn(n)
+		case action == "lag" || strings.HasPrefix(action, "lag:"):
+			// a member is down while the others move on and compact their logs: it has to catch up
+			// through the leader's snapshot
+			l := c.leader()
+			if l == nil || len(members) < 2 {
+				continue
 			}
+			var cands []uint64
+			for _, id := range members {
+				if id != l.id {
+					cands = append(cands, id)
+				}
+			}
+			if len(cands) == 0 {
+				continue
+			}
+			id := cands[r.Intn(len(cands))]
+			if strings.HasPrefix(action, "lag:") {
+				v, _ := strconv.Atoi(action[4:])
+				id = uint64(v)
+			}
+			if 2*(len(members)-1) <= len(members) {
+				continue // the others would lose their quorum
+			}
+			if !downNode(id) {
+				continue
+			}
+			out.Local("member %d goes down", id)
+			for i := 0; i < 3; i++ {
+				seq++
+				ctx, cancel := context.WithTimeout(context.Background(), 300*time.Millisecond)
+				l.prox.Propose(ctx, []byte(fmt.Sprintf("t%d-c%d", t, seq)))
+				cancel()
+			}
+			time.Sleep(150 * time.Millisecond)
+			for _, n := range c.live() {
+				compactOn(n)
+			}
+			upNode(id)
+			// the member catches up (through the leader's snapshot: the entries it misses are compacted)
+			caught := waitFor(20*time.Second, func() bool {
+				n := c.node(id)
+				ld := c.leader()
+				if n == nil || ld == nil {
+					return false
+				}
+				a, b := n.appliedCopy(), ld.appliedCopy()
+				return len(a) == len(b) && len(b) > 0
+			})
+			if !caught {
+				var st []string
+				for _, n := range c.live() {
+					s := n.g.VerifStatus()
+					st = append(st, fmt.Sprintf("node %d: term %d lead %d commit %d applied %d entries, book [%s]", n.id, s.Term, s.Lead, s.Commit, len(n.appliedCopy()), bookText(n.conn.Nodes(), names)))
+				}
+				out.Violate("C20", "C20/lagging-member-never-catches-up", fmt.Sprintf("20 s after member %d came back (the others had compacted the entries it misses) it has not caught up: %s", id, strings.Join(st, "; ")))
+			}
+			check(fmt.Sprintf("member %d coming back after the others compacted their logs", id))
 		case action == "restart" || strings.HasPrefix(action, "restart:"):
 			if len(members) == 0 {
 				continue
